@@ -290,7 +290,10 @@ def facts(src_root):
             raise Untranslatable("visit_AssignBlock: no single value wrapper " + repr(shape))
         shape = shape[starts[0]:]          # what precedes is the target (and the namespace guard)
         if hasfilter:
-            if shape == [" = (escape if context.eval_ctx.autoescape else identity)(", "visit_Filter", ")"]:
+            if shape in ([" = (escape if context.eval_ctx.autoescape else identity)(", "visit_Filter", ")"],
+                         [" = (lambda rv: escape(rv) if context.eval_ctx.autoescape and isinstance(rv, str) else rv)(",
+                          "visit_Filter", ")"]):
+                # strings are escaped by the runtime flag (values of other types keep their type: not text)
                 f["assign_filter"] = "AEscSel"
             elif shape == [" = (Markup if context.eval_ctx.autoescape else identity)(", "visit_Filter", ")"]:
                 f["assign_filter"] = "AMarkupSel"
